@@ -210,9 +210,10 @@ pub(super) fn parse_method_arguments(
             let ty = &pat_type.ty;
 
             // Extract parameter rename attribute
-            let serialized_name = extract_param_rename_attr(&mut pat_type.attrs.clone())
-                .ok()
-                .flatten();
+            let serialized_name = match extract_param_rename_attr(&mut pat_type.attrs.clone()) {
+                Ok(name) => name,
+                Err(e) => return Some(Err(e)),
+            };
 
             // Check if the type is optional
             let is_optional = is_option_type(ty);
